@@ -434,10 +434,29 @@ static void run_exhaustive(long idx, int nseg, Rng& r) {
     cnt("exhaustive_orders"); cnt("exhaustive_histories", hist);
 }
 
+// AckedRange, used directly: [first,last] (closed, may wrap) must be split into at most two non-wrapping closed intervals that cover exactly
+// the same sequence numbers, in order, and first()/last() must be what was given
+static void check_acked_range(Rng& r) {
+    for (int k = 0; k < 8; ++k) {
+        u32 first = (u32)r.edgy(32), len = r.chance(1, 2) ? r.below(70000) : (u32)r.edgy(31); u32 last = first + len;
+        TCPIP::AckedRange ar(first, last);
+        if (ar.first() != first || ar.last() != last) { violation("acked-range/first-last", "AckedRange(" + std::to_string(first) + "," + std::to_string(last) + ") reports first()=" + std::to_string(ar.first()) + " last()=" + std::to_string(ar.last())); return; }
+        u64 covered = 0; u32 expect_next = first; int parts = 0;
+        while (ar.has_next() && parts < 4) { auto iv = ar.next(); ++parts;
+            u32 lo = iv.lower(), hi = iv.upper();
+            if (iv.bounds() != boost::icl::interval_bounds::closed() || lo > hi || lo != expect_next) { violation("acked-range/interval", "AckedRange(" + std::to_string(first) + "," + std::to_string(last) + ") part " + std::to_string(parts) + " is [" + std::to_string(lo) + "," + std::to_string(hi) + "], expected to start at " + std::to_string(expect_next)); return; }
+            covered += (u64)hi - lo + 1; expect_next = hi + 1;
+            if (hi == last) break; }
+        if (covered != (u64)len + 1 || parts > 2) { violation("acked-range/coverage", "AckedRange(" + std::to_string(first) + "," + std::to_string(last) + ") yields " + std::to_string(parts) + " intervals covering " + std::to_string(covered) + " numbers instead of " + std::to_string((u64)len + 1)); return; }
+        cnt(parts == 2 ? "acked_range:wrapping" : "acked_range:plain");
+    }
+}
+
 int main(int argc, char** argv) {
     return vf::run(argc, argv, "C19", [&](long idx, Rng& rng) {
         const Args& a = st().a; bool thorough = a.tier == "thorough";
         if (a.mode == "exhaustive") { run_exhaustive(idx, (int)a.geti("segs", thorough ? 8 : 6), rng); flush_ctrs(); return; }
+        check_acked_range(rng);
         History h = gen_random(rng, thorough);
         describe_case(show(h));
         u64 sg = mix(h.isn, h.n); for (u32 b : h.bnd) sg = mix(sg, b); for (int o : h.order) sg = mix(sg, (u64)o); for (auto& p : h.pkts) sg = mix(sg, p.delivered); sig(sg);
